@@ -37,6 +37,7 @@ func propC01(w *World, r *Run) {
 	ruleComposedInMemory(w, r, "C01.f")
 	ruleOneStatement(w, r, "C01.g") // the statement Set runs replaces the row the next GetLatest reads
 	ruleSQLStoreReachesMain(w, r, "C01.h")
+	ruleInitKeepsState(w, r, "C01.i")
 }
 
 func propC02(w *World, r *Run) {
@@ -75,6 +76,7 @@ func propC03(w *World, r *Run) {
 	ruleImplicitPanic(w, r, "C03.h", reachableModule(w, []*ssa.Function{w.fn(fnUpdate)}))
 	ruleStoredBytesNotRecycled(w, r, "C03.i")
 	ruleCosignatureNotReleasedBeforeStored(w, r, a, "C03.j")
+	ruleStatusTable(w, r, a, "C03.k") // a refusal pronounced by the endpoint after the witness has accepted: the state has moved
 }
 
 func propC04(w *World, r *Run) {
@@ -117,6 +119,7 @@ func propC07(w *World, r *Run) {
 	ruleNoMemoisedStorageError(w, r, "C07.i")
 	ruleRowsClosed(w, r, "C07.j")
 	ruleLocksReleased(w, r, "C07.k")
+	ruleNotFoundOnlyFromStores(w, r, "C07.m")
 	ruleNoHiddenVerdictState(w, r, a, "C07.l")
 	ruleImmut(w, r, "C07.l", immutCoreFields(w, r, "C07.l", "Witness"))
 }
@@ -141,6 +144,8 @@ func propC08(w *World, r *Run) {
 	ruleCompareAndSet(w, r, "C08.j")
 	ruleReadLimitsConstant(w, r, "C08.k")
 	ruleContentLengthUnknownIsNotEmpty(w, r, "C08.k")
+	ruleAdapter(w, r, "C08.l")
+	ruleLockset(w, r, "C08.m")
 }
 
 func propC09(w *World, r *Run) {
@@ -179,6 +184,8 @@ func propC20(w *World, r *Run) {
 	ruleUpdateNotReentered(w, r, "C20.h")
 	ruleAdapter(w, r, "C20.j")
 	ruleVerdictStatusAfterUpdate(w, r, "C20.i")
+	ruleUpdateCalledForRequestsOnly(w, r, "C20.k")
+	ruleFeeder(w, r) // reported under the feeder rules' own ids (C13.*): a split view must reach the witness to be counted
 }
 
 func init() {
@@ -205,6 +212,8 @@ func propC05(w *World, r *Run) {
 	ruleStoredBytesNotRecycled(w, r, "C05.g")
 	ruleAdapter(w, r, "C05.j")
 	ruleStatusTable(w, r, a, "C05.k")
+	ruleNoSetOnRefusal(w, r, a, "C05.l") // a lost write race is a storage error, not a protocol refusal pronounced after Set ran
+	ruleReadAPIAs(w, r, "C05.m")         // a read is one read of the store, made inside the request
 }
 
 func propC06(w *World, r *Run) {
@@ -224,6 +233,8 @@ func propC06(w *World, r *Run) {
 	ruleNoFalseSuccessAtEndpoint(w, r, analyseUpdate(w, r), "C06.g")
 	ruleSQLStoreReachesMain(w, r, "C06.h")
 	ruleNoFallbackToMemory(w, r, "C06.i")
+	ruleNotFoundExact(w, r, "C06.j") // after a restart the stored row is found or the read fails: never "nothing stored"
+	ruleTofuOnlyOnNotFound(w, r, analyseUpdate(w, r), "C06.j")
 }
 
 func init() {
@@ -287,6 +298,7 @@ func propC13(w *World, r *Run) {
 	rulePooledBytesDontEscape(w, r, "C13.j")
 	ruleSizeNarrowing(w, r, "C13.k")
 	ruleNoDerefOfFailedResult(w, r, "C13.l", fnFeedOnce)
+	ruleTimerWaitWatchesContext(w, r, "C13.m")
 	ruleSumDBConstants(w, r) // reported under the tile rules' own ids (C18.*): each proof attempt reads its tiles from the log, one result per requested tile
 }
 
@@ -304,6 +316,7 @@ func propC15(w *World, r *Run) {
 	ruleDistributorGetsAllLogs(w, r, "C15.f")
 	ruleNoDerefOfFailedResult(w, r, "C15.g", fnDistOnce)
 	ruleAdapter(w, r, "C15.h")
+	ruleDistributorLoop(w, r, "C15.i", "C15.j")
 }
 
 func propC16(w *World, r *Run) {
@@ -319,6 +332,8 @@ func propC16(w *World, r *Run) {
 	rulePooledBytesDontEscape(w, r, "C16.g")
 	ruleNoManualEncoding(w, r, "C16.h")
 	ruleNoAppendOntoSharedPrefix(w, r, "C16.i") // the in-memory store hands out the very slice it keeps: a reader that filters it in place rewrites what the next GET serves
+	ruleStoredBytesNotRecycled(w, r, "C16.j")
+	ruleRowsErrChecked(w, r, "C16.k")
 }
 
 func init() {
@@ -347,6 +362,7 @@ func propC12(w *World, r *Run) {
 	ruleNoOwnHasher(w, r, "C12.i")
 	ruleClientReadsWholeBody(w, r, "C12.j")
 	ruleSharedHandlesNotMutated(w, r, "C12.j")
+	ruleNoHiddenVerdictState(w, r, a, "C12.k")
 }
 
 func propC14(w *World, r *Run) {
@@ -457,4 +473,5 @@ func propC19(w *World, r *Run) {
 	ruleDecodedPointersGuarded(w, r, "C19.p")
 	ruleTickerDurationsPositive(w, r, "C19.q")
 	ruleDoublingLoopsTerminate(w, r, "C19.r")
+	ruleDistributorLoop(w, r, "C19.s", "C19.s")
 }
